@@ -573,7 +573,9 @@ static void DecodeGen(Word Index) {
         return;
     }
 
-    for (ActArgCnt = 0; ActArgCnt <= ArgCnt; ActArgCnt++) {
+    for (ActArgCnt = 0;
+         (ActArgCnt <= ArgCnt) && (ActArgCnt < (int)(sizeof(pArg) / sizeof(*pArg)));
+         ActArgCnt++) {
         pArg[ActArgCnt] = &ArgStr[ActArgCnt];
     }
     ActArgCnt = ArgCnt;
